@@ -5,6 +5,16 @@ import z3
 
 def prove(name, goal, hyps=(), timeout_ms=20000, statement=None):
     t0 = time.time()
+    hyps = list(hyps)
+    if hyps:
+        # vacuity guard: the hypotheses alone must not be contradictory
+        s0 = z3.Solver()
+        s0.set("timeout", 5000)
+        for h in hyps:
+            s0.add(h)
+        if s0.check() == z3.unsat:
+            return dict(name=name, kind="lemma", backend="z3", time=time.time() - t0, statement=statement or name,
+                        verdict="ERROR", reason="vacuous lemma: hypotheses are contradictory")
     s = z3.Solver()
     s.set("timeout", timeout_ms)
     s.set("random_seed", 7)
